@@ -155,9 +155,9 @@ func localRunner(name, src string) func(m uint64) *Res {
 
 func sweepFamily(tier string) *core.Family {
 	ps := programs(tier)
-	budget := 170
+	budget := devBudget(170)
 	if tier == "thorough" {
-		budget = 1000
+		budget = devBudget(1000)
 	}
 	return &core.Family{
 		Name: "sweep", Size: uint64(len(ps)), BudgetSeconds: budget, HangSeconds: 300,
@@ -235,18 +235,29 @@ func ampFamily(tier string) *core.Family {
 	}
 }
 
+// devBudget: C06_BUDGET=<seconds> overrides every family budget (development
+// on a loaded machine only; registered commands do not set it).
+func devBudget(def int) int {
+	if b := os.Getenv("C06_BUDGET"); b != "" {
+		if n, err := strconv.Atoi(b); err == nil && n > 0 {
+			return n
+		}
+	}
+	return def
+}
+
 func ampBudget(tier string) int {
 	if tier == "thorough" {
-		return 400
+		return devBudget(400)
 	}
-	return 120
+	return devBudget(120)
 }
 
 func xctxBudget(tier string) int {
 	if tier == "thorough" {
-		return 300
+		return devBudget(300)
 	}
-	return 90
+	return devBudget(90)
 }
 
 // cleanStale removes sentinel directories of dead processes.
